@@ -32,6 +32,7 @@ type PubReq struct {
 	NoReason bool      `json:"no_reason,omitempty"`
 	Token    string    `json:"token,omitempty"` // ok none wrong
 	Unknown  bool      `json:"unknown_field,omitempty"`
+	Chunked  bool      `json:"chunked,omitempty"` // request body of undeclared length
 }
 
 type AdminMut struct {
@@ -225,7 +226,7 @@ func (w *PublishWorld) Publish(pr *PubReq) {
 		body["force"] = true
 	}
 	b, _ := json.Marshal(body)
-	req, err := NewRequest("POST", "/messages/publish", "admin.internal", "127.0.0.1:9", w.adminHeaders(pr.Token, !pr.NoReason), b)
+	req, err := NewRequest("POST", "/messages/publish", "admin.internal", "127.0.0.1:9", w.adminHeaders(pr.Token, !pr.NoReason), b, pr.Chunked)
 	if err != nil {
 		return
 	}
@@ -674,6 +675,7 @@ func GenPublishProgram(t *rapid.T, mutations bool) *Program {
 			case 2:
 				pr.Unknown = true
 			}
+			pr.Chunked = rapid.IntRange(0, 4).Draw(t, "chunked") == 0
 			sys.Pubs = append(sys.Pubs, pr)
 			p.Steps = append(p.Steps, Step{Op: "publish", Batch: len(sys.Pubs) - 1})
 		case k < 17 && mutations:
